@@ -122,6 +122,7 @@ func runC05(c *Ctx) {
 	c.r0523(pk, "R05.23")
 	c.r0524(pk)
 	c.r0525(pk)
+	c.r0526(pk, "R05.26")
 	// the same escaper as in the XML minifier: SVG is XML
 	c.r069("R05.21", "svg")
 	// Inline decides whether the root element keeps its xmlns: it is a per-call fact and must not be written
@@ -208,6 +209,7 @@ func (c *Ctx) r0510(pk *packages.Package) {
 			construct := fmt.Sprintf("svg.PathData.copyInstruction/%s,%s: curve replaced by a line", fam[0], fam[1])
 			// atoms
 			var atoms []string
+			atomExpr := map[string]ast.Expr{}
 			var leaves func(e ast.Expr)
 			leaves = func(e ast.Expr) {
 				e = ast.Unparen(e)
@@ -227,6 +229,7 @@ func (c *Ctx) r0510(pk *packages.Package) {
 					}
 				}
 				atoms = append(atoms, k)
+				atomExpr[k] = e
 			}
 			leaves(ifs.Cond)
 			if len(atoms) > 16 {
@@ -297,6 +300,60 @@ func (c *Ctx) r0510(pk *packages.Package) {
 					bad = strings.Join(on, " ∧ ")
 				}
 			}
+			// a set of the smooth command itself (S, T) that is not the last of its run is followed by another set of that
+			// command, which reflects: the rewrite has to be confined to explicit curves (C, Q) or to the last set
+			explicitLetters := map[string][2]int64{"cx": {'C', 'c'}, "qx": {'Q', 'q'}}[fam[0]]
+			isExplicit := func(a string) bool {
+				be, ok := atomExpr[a].(*ast.BinaryExpr)
+				if !ok || be.Op != token.EQL {
+					return false
+				}
+				for _, side := range []ast.Expr{be.X, be.Y} {
+					if kv, isK := intConst(info, side); isK && (kv == explicitLetters[0] || kv == explicitLetters[1]) {
+						return true
+					}
+				}
+				return false
+			}
+			isLastSet := func(a string) bool {
+				be, ok := atomExpr[a].(*ast.BinaryExpr)
+				if !ok || (be.Op != token.LEQ && be.Op != token.GEQ) {
+					return false
+				}
+				for _, side := range []ast.Expr{be.X, be.Y} {
+					if sum, ok := ast.Unparen(side).(*ast.BinaryExpr); ok && sum.Op == token.ADD {
+						return true
+					}
+				}
+				return false
+			}
+			bad2 := ""
+			for mask := 0; mask < 1<<len(atoms) && bad2 == ""; mask++ {
+				env := map[string]int64{}
+				for k, a := range atoms {
+					env[a] = int64(mask >> k & 1)
+				}
+				v, ok := evalIntExpr(info, ifs.Cond, env)
+				if !ok || v == 0 || env[w1] != 0 && env[w2] != 0 {
+					continue
+				}
+				confined := false
+				for _, a := range atoms {
+					if env[a] != 0 && (isExplicit(a) || isLastSet(a)) {
+						confined = true
+					}
+				}
+				if !confined {
+					var on []string
+					for k, a := range atoms {
+						if mask>>k&1 == 1 {
+							on = append(on, a)
+						}
+					}
+					bad2 = strings.Join(on, " ∧ ")
+				}
+			}
+			c.R.Check(bad2 == "", rule, construct+" (sets of a smooth command)", c.pos(ifs), "confined to an explicit curve or to the last set of a run", "a set of a smooth command that is not the last of its run is turned into a line although its last control point need not be the end point (holds e.g. with only "+bad2+"): the next set of the run reflects that control point — `M0 0S0 0 10 0 30 5 40 5` becomes `M0 0H10S30 5 40 5`")
 			c.R.Check(bad == "", rule, construct, c.pos(ifs), "implies "+w1+" ∧ "+w2, "the curve is turned into a line although its last control point need not be the end point (holds e.g. with only "+bad+"): a following smooth curve then starts from a different control point")
 			return false // the choice between l and L inside is not another rewrite
 		})
@@ -2216,4 +2273,53 @@ func (c *Ctx) nanFields(pk *packages.Package, fd *ast.FuncDecl) map[*types.Var]b
 func isFloat(t types.Type) bool {
 	b, ok := t.Underlying().(*types.Basic)
 	return ok && b.Info()&types.IsFloat != 0
+}
+
+// R05.26 (= R09.27): a coordinate that is not finite is not formatted.
+func (c *Ctx) r0526(pk *packages.Package, rule string) {
+	c.R.Rule(rule, "the alternative (absolute ↔ relative) form of a path command is computed in float64 and formatted with strconv.AppendFloat; a coordinate such as 1e999 is +Inf, and so is every sum with it: `M0 0L1e999 5` became `M0 0lInf 5`, which is not path data. Every AppendFloat call in package svg whose value is computed (not a constant) is dominated by the false outcome of a math.IsInf / math.IsNaN test of that value")
+	info := pk.TypesInfo
+	n := 0
+	for _, fd := range load.FuncDecls(pk) {
+		if fd.Body == nil {
+			continue
+		}
+		calls := findCalls(info, fd.Body, false, "strconv.AppendFloat")
+		if len(calls) == 0 {
+			continue
+		}
+		g := c.graph(pk, fd)
+		for _, call := range calls {
+			if len(call.Args) < 2 {
+				continue
+			}
+			if _, isK := info.Types[call.Args[1]]; isK && info.Types[call.Args[1]].Value != nil {
+				continue
+			}
+			n++
+			val := nospace(str(call.Args[1]))
+			y := g.NodeOf(call)
+			inf, nan := false, false
+			if y != nil {
+				for _, f := range g.DomFacts(y) {
+					if f.Value || f.Test.Kind != flow.KCond {
+						continue
+					}
+					ce, ok := ast.Unparen(f.Test.Expr).(*ast.CallExpr)
+					if !ok || len(ce.Args) < 1 || nospace(str(ce.Args[0])) != val {
+						continue
+					}
+					switch calleeName(info, ce) {
+					case "math.IsInf":
+						inf = true
+					case "math.IsNaN":
+						nan = true
+					}
+				}
+			}
+			c.R.Check(inf && nan, rule, fmt.Sprintf("svg.%s/formatted coordinate#%d is finite", load.FuncName(fd), n), c.pos(call), "behind !math.IsInf && !math.IsNaN of "+val,
+				"a computed coordinate is formatted without a test that it is finite: `<path d=\"M0 0L1e999 5\"/>` is written as `d=\"M0 0lInf 5\"`")
+		}
+	}
+	c.R.Floor(rule, "formatted computed coordinates", n, 1)
 }
